@@ -732,18 +732,30 @@ def bucket_of(case, obs, kind):
 # enumeration of the small product space
 
 
-def leaf_variants():
+def leaf_variants(full=True):
+    """Single-stage leaves of the enumerated sub-space.  full=False: the reduced set used for three leaves."""
+    def lf(form, cls, code=0, emit=False, sf=None, inner=None):
+        return {"t": "leaf", "form": form, "cls": cls, "pfx": 0, "inner": inner, "wrap": "bare",
+                "stages": [{"code": code, "deco": None, "ext": False, "emit": emit, "sf": sf}]}
+
     out = []
     for form in ("bare", "hid", "unc", "out", "obj"):
         for code in (0, 1):
             for cls in ("py", "np"):
-                out.append({"t": "leaf", "form": form, "cls": cls, "pfx": 0, "inner": None, "wrap": "bare",
-                            "stages": [{"code": code, "deco": None, "ext": False, "emit": form == "out"}]})
+                out.append(lf(form, cls, code=code, emit=form == "out"))
     for oc, ic in ((0, 0), (1, 0), (0, 1)):
         for cls in ("py", "np"):
-            out.append({"t": "leaf", "form": "inject", "cls": cls, "pfx": 0, "wrap": "bare",
-                        "inner": {"code": ic, "deco": None, "emit": False},
-                        "stages": [{"code": oc, "deco": None, "ext": False, "emit": False}]})
+            out.append(lf("inject", cls, code=oc, inner={"code": ic, "deco": None, "emit": False, "sf": None}))
+    # commands that cannot be started: name not on $PATH / non-executable file on $PATH
+    out.append(lf("bare", "np", code=1, sf="nf"))
+    out.append(lf("bare", "py", code=1, sf="nf"))
+    out.append(lf("out", "np", code=1, sf="nf"))
+    out.append(lf("obj", "np", code=1, sf="nf"))
+    if full:
+        out.append(lf("hid", "np", code=1, sf="nf"))
+        out.append(lf("unc", "np", code=1, sf="nf"))
+        out.append(lf("bare", "np", code=1, sf="perm"))
+        out.append(lf("inject", "np", code=0, inner={"code": 1, "deco": None, "emit": False, "sf": "nf"}))
     return out
 
 
@@ -776,8 +788,8 @@ def small_shapes(nmax):
 def exhaustive_cases(nmax):
     import copy
 
-    variants = leaf_variants()
     for n, name, build in small_shapes(nmax):
+        variants = leaf_variants(full=n <= 2)
         for combo in itertools.product(range(len(variants)), repeat=n):
             for R in (True, False):
                 for C in (False, True):
@@ -853,14 +865,19 @@ def case_strategy(process=False):
         n = draw(hs.sampled_from([1, 1, 2, 2, 2, 3, 3, 4, 5, 6]))
         use_ext = draw(hs.integers(0, 9)) == 0
         use_not = draw(hs.integers(0, 3)) == 0
+        use_sf = draw(hs.integers(0, 3)) == 0          # commands that cannot be started
         explicit_only = kind in ("assign", "if")
 
         def stage(allow_emit):
             s = {"code": draw(hs.sampled_from([0, 0, 0, 1, 1, 2, 127, 255])),
                  "deco": draw(hs.sampled_from([None] * 8 + ["raise", "ignore"])),
                  "ext": bool(use_ext and draw(hs.integers(0, 2)) == 0),
-                 "emit": False}
-            if allow_emit and not s["ext"]:
+                 "emit": False, "sf": None}
+            if use_sf and draw(hs.integers(0, 2)) == 0:
+                s["sf"] = draw(hs.sampled_from(["nf", "nf", "nf", "perm", "perm", "path"]))
+                s["ext"] = False
+                s["code"] = 1
+            if allow_emit and not s["ext"] and not s["sf"]:
                 s["emit"] = draw(hs.booleans())
             return s
 
@@ -877,11 +894,15 @@ def case_strategy(process=False):
                     stages[j]["ext"] = False
             lf = {"t": "leaf", "form": form, "cls": draw(hs.sampled_from(["py", "np"])),
                   "pfx": draw(hs.integers(0, 1)), "stages": stages, "inner": None, "wrap": "bare"}
+            if any(st_["sf"] for st_ in stages):
+                stages[-1]["emit"] = False      # no output expected from a pipeline with an unstartable stage
             if form == "inject":
                 stages[0]["ext"] = False
                 lf["inner"] = {"code": draw(hs.sampled_from([0, 0, 1, 2])),
                                "deco": draw(hs.sampled_from([None] * 6 + ["raise", "ignore"])),
-                               "emit": draw(hs.booleans())}
+                               "emit": draw(hs.booleans()), "sf": None}
+                if use_sf and draw(hs.integers(0, 3)) == 0:
+                    lf["inner"].update(sf=draw(hs.sampled_from(["nf", "perm"])), code=1, emit=False)
                 lf["wrap"] = "hid" if explicit_only else draw(hs.sampled_from(["bare", "hid"]))
             return lf
 
@@ -1060,7 +1081,7 @@ def run_child(case, mode, scratch):
     except FileNotFoundError:
         pass
     marks = ["M:" + ln[5:] for ln in r.stdout.splitlines() if ln.startswith("MARK ")]
-    return {"status": r.returncode, "log": log, "marks": marks, "stderr": r.stderr[-600:]}
+    return {"status": r.returncode, "log": log, "marks": marks, "stderr": r.stderr[-4000:]}
 
 
 def judge_process(case, got):
@@ -1196,10 +1217,12 @@ def main(run):
     nmax = run.n(2, 3)
     common.pool_map(run, __name__, "worker_exhaustive", [(i, nw, nmax, run.scratch) for i in range(nw)], procs=nw)
     run.extra["exhaustive_subspace"] = (
-        "expression statements over <= %d single-stage leaves: shapes %s x 26 leaf variants (5 forms x code {0,1} x "
-        "2 lexical classes, + @$() argument with outer/inner failure x 2 classes) x 4 flag settings"
-        % (nmax, [s[1] for s in small_shapes(nmax)]))
-    per = run.n(6400, 192000) // nw
+        "expression statements over <= %d single-stage leaves: shapes %s x leaf variants (5 forms x code {0,1} x 2 "
+        "lexical classes; @$() argument with outer/inner failure x 2 classes; command not found in bare(2 classes)/$()/"
+        "!() [and, for <= 2 leaves, ![]/$[]/@$() and a non-executable file on $PATH]: %d variants for <= 2 leaves, %d for "
+        "3) x 4 flag settings" % (nmax, [s[1] for s in small_shapes(nmax)], len(leaf_variants(True)),
+                                   len(leaf_variants(False))))
+    per = run.n(4800, 160000) // nw
     common.pool_map(run, __name__, "worker_random",
                     [(common.worker_seed(run.seed, w), per, run.scratch) for w in range(nw)], procs=nw)
     pper = max(1, run.n(24, 320) // nw)
@@ -1208,7 +1231,8 @@ def main(run):
     missing = [lab for lab in (["form:" + f for f in FORMS] + ["kind:" + k for k in KINDS] +
                                ["flags:R%dC%d" % (r, c) for r in (0, 1) for c in (0, 1)] +
                                ["class:py", "class:np", "deco:raise", "deco:ignore", "stages:2", "stages:3",
-                                "has-not", "has-parens", "external-stage", "process-run:c", "process-run:script"])
+                                "has-not", "has-parens", "external-stage", "process-run:c", "process-run:script",
+                                "cannot-start:nf", "cannot-start:perm", "cannot-start:path"])
                if not run.stats.hist.get(lab)]
     if missing:
         raise common.HarnessError("generator incomplete: no case with %s" % missing)
@@ -1222,6 +1246,11 @@ def main(run):
         "or = pipeline); !() under $XONSH_SUBPROC_CMD_RAISE_ERROR; a !() whose result nothing in the statement asks for "
         "is non-blocking - its log position and any raise from it are unconstrained",
         "stages of one pipeline run concurrently: their log entries are compared as a set per pipeline",
+        "a command that cannot be started (name not on the controlled $PATH; 0644 file on $PATH or named by absolute "
+        "path) is a failing command with some non-zero exit status (the documentation only shows its message); both "
+        "outcomes accepted for: which other stages of that pipeline run, whether an unstartable non-final stage fails "
+        "the pipeline, and whether a non-executable file named by path is a failing command or a XonshError for the "
+        "whole line regardless of flags and decorators",
         "programs the parser rejects (parenthesised sub-chains after a bare command: C03's recorded finding) are "
         "skipped and counted, not judged here",
         "process tier: the child is `python -m xonsh --no-rc` with PYTHONPATH=<tree under test>; it loads that tree's "
